@@ -4,8 +4,8 @@ package codex
 
 import "github.com/creack/pty"
 
-// VerifExecInitBytes = newExecInitMsg(...).ToBytes(); hasSize=false passes a nil *pty.Winsize.
-func VerifExecInitBytes(usePty bool, cmd, term string, hasSize bool, rows, cols, x, y uint16) []byte {
+// VerifWireExecInitBytes = newExecInitMsg(...).ToBytes(); hasSize=false passes a nil *pty.Winsize.
+func VerifWireExecInitBytes(usePty bool, cmd, term string, hasSize bool, rows, cols, x, y uint16) []byte {
 	var size *pty.Winsize
 	if hasSize {
 		size = &pty.Winsize{Rows: rows, Cols: cols, X: x, Y: y}
